@@ -18,7 +18,7 @@ RC_CLEAN=$(run_demo)
 git apply $M/patch.diff || { echo RESULT patch-does-not-apply; exit 1; }
 meson compile -C build >>$OUT 2>&1 || { git checkout -q -- .; echo RESULT mutated-build-failed; exit 1; }
 echo "--- meson test on changed tree" >>$OUT
-meson test -C build >$M/verify.tests 2>&1; T=$?
+meson test -t 6 -C build >$M/verify.tests 2>&1; T=$?
 OKN=$(grep -E "^Ok:" $M/verify.tests | awk '{print $2}')
 demo_build
 echo "--- demo on changed tree" >>$OUT
